@@ -16,6 +16,7 @@ fn main() {
         Some("comment") => std::process::exit(comment_case(&args[2], &args[3])),
         Some("markdown") => std::process::exit(markdown_case(&args[2], &args[3], &args[4])),
         Some("rule-doc") => std::process::exit(rule_doc_case(&args[2], args.get(3).map(|s| s.as_str()).unwrap_or(""))),
+        Some("dict") => std::process::exit(dict_case(&args[2..])),
         Some("spell-cache") => std::process::exit(spell_cache_case(&args[2], &args[3])),
         Some("remove-overlaps-raw") => {
             // prints the identity tags of the surviving lints, in output order (translation validation of mirsym)
@@ -627,4 +628,90 @@ fn rule_doc_case(spec: &str, mode: &str) -> i32 {
     } else {
         all(&text, &rule, split, FstDictionary::curated())
     }
+}
+
+
+/// C15: dictionaries holding the given words (one MutableDictionary with all of them; a MergedDictionary with one child per
+/// word; an FstDictionary built from them) against brute-force definitions of membership, exact capitalisation, canonical
+/// spelling, metadata and fuzzy search. args: <query> <max_distance> <max_results> <word>...
+fn dict_case(args: &[String]) -> i32 {
+    use harper_core::{Dictionary, FstDictionary, MergedDictionary, MutableDictionary, WordMetadata};
+    use std::sync::Arc;
+    let q: Vec<char> = args[0].chars().collect();
+    let d: u8 = args[1].parse().unwrap();
+    let r: usize = args[2].parse().unwrap();
+    let words: Vec<Vec<char>> = args[3..].iter().map(|w| w.chars().collect()).collect();
+    let lower = |w: &[char]| -> Vec<char> { w.iter().flat_map(|c| c.to_lowercase()).collect() };
+    fn lev(a: &[char], b: &[char]) -> u8 {
+        if a.is_empty() { return b.len() as u8; }
+        if b.is_empty() { return a.len() as u8; }
+        let c = if a[0] == b[0] { 0 } else { 1 };
+        (lev(&a[1..], b) + 1).min(lev(a, &b[1..]) + 1).min(lev(&a[1..], &b[1..]) + c)
+    }
+    let meta = |k: usize| { let mut m = WordMetadata::default(); m.common = k % 2 == 0; m };
+    let mut all = MutableDictionary::new();
+    let mut merged = MergedDictionary::new();
+    for (k, w) in words.iter().enumerate() {
+        all.append_word(w.clone(), meta(k));
+        let mut one = MutableDictionary::new();
+        one.append_word(w.clone(), meta(k));
+        merged.add_dictionary(Arc::new(one));
+    }
+    let fst = FstDictionary::new(words.iter().enumerate().map(|(k, w)| (w.iter().copied().collect(), meta(k))).collect());
+    let distinct_lower = { let mut l: Vec<_> = words.iter().map(|w| lower(w)).collect(); l.sort(); l.dedup(); l.len() == words.len() };
+    let mut bad = 0;
+    let first = words.iter().position(|w| lower(w) == lower(&q));
+    let want_contains = first.is_some();
+    let want_exact = words.iter().any(|w| *w == q);
+    let qs: String = q.iter().collect();
+    let backends: Vec<(&str, &dyn Dictionary)> = vec![("MutableDictionary", &all), ("MergedDictionary", &merged), ("FstDictionary", &fst)];
+    for (name, dict) in &backends {
+        if !distinct_lower && *name != "MergedDictionary" { continue; }
+        for (form, c, e, m) in [("", dict.contains_word(&q), dict.contains_exact_word(&q), dict.get_word_metadata(&q).map(|m| m.common)),
+                                ("_str", dict.contains_word_str(&qs), dict.contains_exact_word_str(&qs), dict.get_word_metadata_str(&qs).map(|m| m.common))] {
+            if c != want_contains { println!("VIOLATED: {name}::contains_word{form}({qs:?}) = {c} with words {:?}", &args[3..]); bad = 1; }
+            if e != want_exact { println!("VIOLATED: {name}::contains_exact_word{form}({qs:?}) = {e} with words {:?}", &args[3..]); bad = 1; }
+            let want_m = first.map(|k| meta(k).common);
+            if m != want_m { println!("VIOLATED: {name}::get_word_metadata{form}({qs:?}) gives common = {m:?}, expected {want_m:?} with words {:?}", &args[3..]); bad = 1; }
+        }
+        let cap = dict.get_correct_capitalization_of(&q).map(|w| w.to_vec());
+        let want_cap = first.map(|k| words[k].clone());
+        if cap != want_cap { println!("VIOLATED: {name}::get_correct_capitalization_of({qs:?}) = {cap:?}, expected {want_cap:?}"); bad = 1; }
+    }
+    // fuzzy search (the FST back-end only for completeness/truth of what it returns on lower-case ASCII queries)
+    let ql = lower(&q);
+    let truth: Vec<(Vec<char>, u8)> = words.iter().map(|w| (w.clone(), lev(&q, w).min(lev(&ql, w)))).collect();
+    let q_lower = q.iter().all(|c| c.is_lowercase());
+    for (name, dict) in &backends {
+        if !distinct_lower { continue; }
+        let res = dict.fuzzy_match(&q, d, r);
+        if res.len() > r { println!("VIOLATED: {name}::fuzzy_match({qs:?}, {d}, {r}) returns {} results", res.len()); bad = 1; }
+        let mut prev = 0u8;
+        for x in &res {
+            match truth.iter().find(|(w, _)| w.as_slice() == x.word) {
+                None => { println!("VIOLATED: {name}::fuzzy_match({qs:?}) returns {:?}, not a dictionary word", x.word); bad = 1; }
+                Some((_, t)) => {
+                    if *name != "FstDictionary" && x.edit_distance != *t { println!("VIOLATED: {name}::fuzzy_match({qs:?}, {d}, {r}) reports distance {} for {:?}, true distance {t}", x.edit_distance, x.word); bad = 1; }
+                    if *name == "FstDictionary" && x.edit_distance != lev(&q, x.word) && x.edit_distance != lev(&ql, x.word) { println!("VIOLATED: {name}::fuzzy_match({qs:?}) reports a distance that is not a Levenshtein distance for {:?}", x.word); bad = 1; }
+                }
+            }
+            if x.edit_distance > d { println!("VIOLATED: {name}::fuzzy_match({qs:?}, {d}, {r}) returns a word at distance {}", x.edit_distance); bad = 1; }
+            if x.edit_distance < prev { println!("VIOLATED: {name}::fuzzy_match({qs:?}, {d}, {r}) is not ordered by distance"); bad = 1; }
+            prev = x.edit_distance;
+        }
+        for i in 0..res.len() { for j in 0..i { if res[i].word == res[j].word { println!("VIOLATED: {name}::fuzzy_match({qs:?}) returns {:?} twice", res[i].word); bad = 1; } } }
+        if q_lower {
+            let within: Vec<_> = truth.iter().filter(|(_, t)| *t <= d).collect();
+            if r >= words.len() {
+                for (w, t) in &within {
+                    if !res.iter().any(|x| x.word == w.as_slice()) { println!("VIOLATED: {name}::fuzzy_match({qs:?}, {d}, {r}) misses {:?} at distance {t} (words {:?})", w.iter().collect::<String>(), &args[3..]); bad = 1; }
+                }
+            } else if r >= 1 && !within.is_empty() {
+                let best = within.iter().map(|(_, t)| *t).min().unwrap();
+                if res.first().map(|x| x.edit_distance) != Some(best) { println!("VIOLATED: {name}::fuzzy_match({qs:?}, {d}, {r}) does not return a closest word (best distance {best})"); bad = 1; }
+            }
+        }
+    }
+    if bad == 0 { println!("ok: dictionaries agree with the definitions for query {qs:?}, words {:?}", &args[3..]); }
+    bad
 }
